@@ -10,10 +10,10 @@ CHECK = dict(
              'degenerate-range scenarios); non-trivial = at least one locker waited on a conflicting range and at least one adjust_range '
              'was issued; distinct = distinct signature (section, vCPUs, threads, number of grid points, log2 buckets of waits, cross-vCPU '
              'wake-ups, refused/growing adjusts, saturating and zero-length acquisitions)',
-        floors=dict(quick=dict(evaluations=30, events=100000, distinct=10,
+        floors=dict(quick=dict(evaluations=30, events=50000, distinct=10,
                                cov={'C_RANGELOCK_WAITED': 20000, 'waited_then_acquired': 1000, 'adjust_refused': 500, 'adjust_grow_ok': 1000,
                                     'saturating_range_acquired': 1000, 'superset_unlock': 500, 'zero_length_acquired': 100, 'whole_space_locks': 20}),
-                    thorough=dict(evaluations=250, events=2000000, distinct=60,
+                    thorough=dict(evaluations=250, events=1000000, distinct=60,
                                   cov={'C_RANGELOCK_WAITED': 400000, 'waited_then_acquired': 20000, 'adjust_refused': 10000, 'adjust_grow_ok': 20000,
                                        'saturating_range_acquired': 20000, 'superset_unlock': 10000, 'zero_length_acquired': 2000, 'whole_space_locks': 200})),
         assumptions=['x86-TSO hardware; weaker orderings only through TSan', 'stall points exist only in the scheduler wake-up paths (no hook inside range-lock.h besides the coverage counter)',
